@@ -123,7 +123,7 @@ def effect_ok(base: dict, got: dict) -> bool:
     return got == exp
 
 
-OTHER_NEAR = [_parse(f"CREATE TABLE {qual(s, 't_')} ({COLS});")[0] for s in SCH]
+OTHER_NEAR = [_parse(f"CREATE TABLE {qual(s, 't$')} ({COLS});")[0] for s in SCH]
 BASE_NEAR = [fmt([deepcopy(t)], "sql")[0] for t in OTHER_NEAR]
 
 
@@ -160,7 +160,7 @@ def c_route(sd: int, pd: int, sr: int, pr: int, other_kind: int, target_first: b
 
 def api_c_route(sd, pd, sr, pr, other_kind, target_first):
     t_ddl = f"CREATE TABLE {qual(SCH[sd], SPELL[pd])} ({COLS});"
-    o_ddl = f"CREATE TABLE q.t ({COLS});" if other_kind == 0 else f"CREATE TABLE {qual(SCH[sd], 'u' if other_kind == 1 else 't_')} ({COLS});"
+    o_ddl = f"CREATE TABLE q.t ({COLS});" if other_kind == 0 else f"CREATE TABLE {qual(SCH[sd], 'u' if other_kind == 1 else 't$')} ({COLS});"
     ddl = "\n".join(([t_ddl, o_ddl] if target_first else [o_ddl, t_ddl]) + [KDDL.format(T=qual(SCH[sr], SPELL[pr]))])
     match = strip(SCH[sr]) == strip(SCH[sd]) and strip(SPELL[pr]) == strip(SPELL[pd])
     base_t = DDLParser(t_ddl).run()[0]
